@@ -2,6 +2,7 @@ import DaskModel.DriverLib
 import DaskModel.Model.SDL
 import DaskModel.Model.Repart
 import DaskModel.Model.Divs
+import DaskModel.Model.Shuffle
 open Dask
 
 /-- `(sdl (seq…) npartitions n)` / `(sdl (seq…) chunksize c)` ↦ `(ok (divisions…) (locations…))` | `(raised)` -/
@@ -114,7 +115,43 @@ def hPartitionsDivs : Handler := handler fun args =>
   | [d, sel] => do pure (okOr ((Divs.partitionsDivs (← d.toNats?) (← sel.toNats?)).map SExp.ofNats))
   | _ => none
 
+/-! ## C40 -/
+def hStageIndex : Handler := handler fun args =>
+  match args with
+  | [inds, st, k, np, nf, h] => do
+    let st ← st.toNat?; let k ← k.toNat?; let np ← np.toNat?; let nf ← nf.toNat?; let h ← h.toBool?
+    pure (SExp.ofNats ((← inds.toNats?).map fun i => Shuffle.stageIndex i st k np nf h))
+  | _ => none
+
+def hSimpleShuffle : Handler := handler fun args =>
+  match args with
+  | [ps, n] => do pure (idsOf (Shuffle.simpleShuffle (numberRows (← ps.toNatss?)) (← n.toNat?)))
+  | _ => none
+
+def hTaskShuffle : Handler := handler fun args =>
+  match args with
+  | [ps, n, k, st] => do
+    pure (idsOf (Shuffle.taskShuffle (numberRows (← ps.toNatss?)) (← n.toNat?) (← k.toNat?) (← st.toNat?)))
+  | _ => none
+
+def hLayerWiring : Handler := handler fun args =>
+  match args with
+  | [k, st, s] => do
+    pure (.list ((Shuffle.layerWiring (← k.toNat?) (← st.toNat?) (← s.toNat?)).map fun (idx, srcs) =>
+      .list [SExp.ofNat idx, SExp.ofNatss srcs]))
+  | _ => none
+
+def hSetPartitionsPre : Handler := handler fun args =>
+  match args with
+  | [d, xs, asc, nal] => do
+    let d ← d.toNats?; let asc ← asc.toBool?; let nal ← nal.toBool?
+    let xs ← (← xs.toList?).mapM optNat?
+    pure (SExp.ofNats (xs.map fun x => Shuffle.setPartitionsPre d x asc nal))
+  | _ => none
+
 def table : List (String × Handler) := [("sdl", hSdl),
+  ("stage-index", hStageIndex), ("simple-shuffle", hSimpleShuffle), ("task-shuffle", hTaskShuffle),
+  ("layer-wiring", hLayerWiring), ("set-partitions-pre", hSetPartitionsPre),
   ("truthful", hTruthful), ("locslice-divs", hLocSliceDivs), ("partitions-divs", hPartitionsDivs),
   ("tofewer-bounds", hToFewerBounds), ("split-positions", hSplitPositions), ("nsplits", hNsplits),
   ("lower-kind", hLowerKind), ("div-layer", hDivLayer), ("repart-divs", hRepartDivs),
